@@ -391,6 +391,9 @@ switchpos:
 			}
 			return bval / v, nil
 		case token.Rem:
+			if v == 0 {
+				return nil, ErrZeroDivision
+			}
 			return bval % v, nil
 		case token.And:
 			return bval & v, nil
@@ -428,6 +431,9 @@ switchpos:
 			}
 			return bval / v, nil
 		case token.Rem:
+			if v == 0 {
+				return nil, ErrZeroDivision
+			}
 			return bval % v, nil
 		case token.And:
 			return bval & v, nil
